@@ -128,6 +128,9 @@ def main(argv):
     if prop == "C20":
         opts["wall"] = 240
         opts["selftest"] = 3 if tier == "quick" else 12
+        # (a unit is a complete fault matrix of ~420 cases: the quick tier should get through the first 48 units, i.e.
+        #  8 base OCPs x 3 methods x 2 placements, so that every parity-driven placement variant occurs a few times)
+        opts["budget"] = 170 if tier == "quick" else 1200
     i = 2
     nseeds = None
     while i < len(argv):
